@@ -13,14 +13,16 @@ import WcModel.Proofs.GlobFlags
     NOTE (what the code really does): the separator is appended when `dir_only` holds
     *regardless of `is_dir`* — harmless for real entries (with `dir_only` the listing keeps
     directories only) but it is how `f/**/` would spell `f//`… see D17.
-  * NODIR (`nodir_wired`, `nodir_excludes_dirs`): whenever NODIR is set the no-directory regex
-    is among the exclusions, and it rejects every candidate flagged a directory whose path has
-    no newline.  With a newline it does not (D18 witness) and — being the Windows variant on
-    every host (D16 witness) — it also rejects a *file* whose name ends in a backslash.
+  * NODIR (`nodir_wired`, `nodir_excludes_dirs`): whenever NODIR is set the (POSIX)
+    no-directory regex is among the exclusions, and it rejects EVERY candidate flagged a
+    directory.  Two defects are repaired here: D18 (the regex had no `(?s:`, so a directory
+    whose path contains a newline survived — the "no newline" hypothesis is gone) and D16 (the
+    Windows variant was used on every host and also rejected a *file* whose name ends in a
+    backslash); `D18_D16_fixed_witness` states the repaired behaviour on the old witness input.
   * `exists_partial` — **every result exists** (`lexists`, resolved at string level from
     scratch, as the OS does) **and ends with a separator only if it is a directory**, for every
-    well-formed tree and every part list, under the hypotheses of `C05_partial` (they exclude
-    D14 and D17; no FOLLOW / `***`).  `flag_is_fs` — the `is_dir` flag the walker carries is
+    well-formed tree and every part list, under the hypotheses of `C05_main_walk` (they exclude
+    D17; no FOLLOW / `***`; the `SegAgree` hypothesis that excluded D14 is discharged).  `flag_is_fs` — the `is_dir` flag the walker carries is
     what the file system says.  These go through the specification: a result is a denoted
     path (C05_partial), and every denoted path is well formed (`Proofs/GlobExists.lean`, which
     also proves that path resolution is compositional for the model's string-level resolver —
@@ -65,63 +67,79 @@ theorem result_shape (w : WCtx) (fs : FS) (fuel : Nat) (ps : List (List GPart)) 
 /-- **C12_nodir, wiring**: NODIR ⇒ the no-directory regex is an exclusion of the built object -/
 theorem nodir_wired (g : GInit) (exps : List (List (List Char))) (excl : Option (List (List (List Char))))
     (o : GlobObj) (hn : g.nodir = true) (h : GlobObj.build g (some exps) excl = .ok o) :
-    Frag.noWinDir ∈ (GlobObj.wctx g o).excl := build_nodir g exps excl o hn h
+    Frag.noNixDir ∈ (GlobObj.wctx g o).excl := build_nodir g exps excl o hn h
 
-/-- **C12_nodir**: under NODIR no result comes from a candidate flagged a directory — unless
-    its path contains a newline (D18) -/
+/-- **C12_nodir**: under NODIR no result comes from a candidate flagged a directory — with no
+    exception (the "unless its path contains a newline" clause of D18 is gone) -/
 theorem nodir_excludes_dirs (w : WCtx) (fs : FS) (fuel : Nat) (ps : List (List GPart)) (x : List Char)
-    (hin : Frag.noWinDir ∈ w.excl) (hx : x ∈ globResults w fs fuel ps) :
+    (hin : Frag.noNixDir ∈ w.excl) (hx : x ∈ globResults w fs fuel ps) :
     ∃ p ∈ ps, ∃ v ∈ results (globPattern w.toWalkCfg fs fuel p), x = formatPath w (dirOnlyOf p) v ∧
-      (v.isDir = false ∨ ∃ c ∈ v.path, c = '\n') := by
+      v.isDir = false := by
   obtain ⟨p, hp, v, hv, hex, rfl⟩ := result_shape w fs fuel ps x hx
   refine ⟨p, hp, v, hv, rfl, ?_⟩
   cases hd : v.isDir with
-  | false => exact Or.inl rfl
+  | false => rfl
   | true =>
-    right
-    apply Classical.byContradiction
-    intro hne
-    have hnl : ∀ c ∈ v.path, c ≠ '\n' := fun c hc heq => hne ⟨c, hc, heq⟩
-    rw [noWinDir_excludes w v hin hd hnl] at hex
+    rw [noNixDir_excludes w v hin hd] at hex
     cases hex
+
+/-- the same from the constructor: for whatever `Glob.__init__` builds under NODIR -/
+theorem nodir_excludes_dirs_built (g : GInit) (exps : List (List (List Char))) (excl : Option (List (List (List Char))))
+    (o : GlobObj) (hn : g.nodir = true) (h : GlobObj.build g (some exps) excl = .ok o)
+    (fs : FS) (fuel : Nat) (ps : List (List GPart)) (x : List Char)
+    (hx : x ∈ globResults (GlobObj.wctx g o) fs fuel ps) :
+    ∃ p ∈ ps, ∃ v ∈ results (globPattern (GlobObj.wctx g o).toWalkCfg fs fuel p),
+      x = formatPath (GlobObj.wctx g o) (dirOnlyOf p) v ∧ v.isDir = false :=
+  nodir_excludes_dirs _ fs fuel ps x (nodir_wired g exps excl o hn h) hx
 
 /-- **C12_exists_partial / C12_trailing_sep (only-if)**: every path `glob()` returns for a
     pattern exists and, if it ends with a separator, is a directory. -/
 theorem exists_partial (w : WCtx) (fs : FS) (htree : fs.WFTree) (hc : w.followLinks = false) (fuel : Nat)
     (hf : fs.top.height < fuel) (parts : List GPart) (hl : NoLong parts) (hwf : WFParts parts)
-    (hag : SegAgree fs w.toWalkCfg parts) (ht : TopOK fs w.toWalkCfg parts) (x : List Char)
+    (ht : TopOK fs w.toWalkCfg parts) (x : List Char)
     (hx : x ∈ perPattern w fs fuel parts) :
     fs.lexists x = true ∧ (endsWithSep x = true → fs.isdir x = true) := by
-  obtain ⟨v, hv, _, rfl⟩ := (perPattern_iff_denotesTop w fs hc fuel hf parts hl hwf hag ht x).1 hx
+  obtain ⟨v, hv, _, rfl⟩ :=
+    (perPattern_iff_denotesTop w fs hc fuel hf parts hl hwf (segAgree_all fs w.toWalkCfg parts) ht x).1 hx
   exact format_good w fs (dirOnlyOf parts) v (denotesTop_good htree ht.rootDir hv) (denotesTop_dirOnly hv)
 
 /-- the `is_dir` flag of every candidate is what the file system says about its path -/
 theorem flag_is_fs (c : WalkCfg) (fs : FS) (htree : fs.WFTree) (hc : c.followLinks = false) (fuel : Nat)
     (hf : fs.top.height < fuel) (parts : List GPart) (hl : NoLong parts) (hwf : WFParts parts)
-    (hag : SegAgree fs c parts) (ht : TopOK fs c parts) (v : Y) (hv : v ∈ results (globPattern c fs fuel parts)) :
+    (ht : TopOK fs c parts) (v : Y) (hv : v ∈ results (globPattern c fs fuel parts)) :
     v.isDir = fs.isdir v.path := by
-  have g := denotesTop_good htree ht.rootDir ((globPattern_iff_denotesTop c fs hc fuel hf parts hl hwf hag ht v).1 hv)
+  have g := denotesTop_good htree ht.rootDir
+    ((globPattern_iff_denotesTop c fs hc fuel hf parts hl hwf (segAgree_all fs c parts) ht v).1 hv)
   unfold FS.isdir
   rw [g.resolves]; exact g.isDir
 
 /-! ### witnesses -/
 
 def wc : WalkCfg := { dot := false, caseSensitive := true, followLinks := false, fdMode := false }
-def wN : WCtx := { wc with mark := false, pathlib := false, nounique := false, excl := [Frag.noWinDir] }
-def reStar : Re := .cat (.look true (.lit '.')) (.star true .any)
+def wN : WCtx := { wc with mark := false, pathlib := false, nounique := false, excl := [Frag.noNixDir] }
+/-- `*` as a compiled part, reduced to what matters here: `^(?s:(?!\.).*?)$` (applied with `fullmatch`) -/
+def reStar : Re := .cat .bos (.cat (.flags true false (.cat (.look true (.lit '.')) (.star true .any))) .eos)
 def pStar : List GPart := [⟨.re "*".toList reStar, true, false, false, false, false⟩]
 
 /-- r/ = { d/, "a\nb"/, f, "x\\" } -/
 def tN : FS := ⟨.dir [("d".toList, .dir []), ("a\nb".toList, .dir []), ("f".toList, .file), ("x\\".toList, .file)], []⟩
 
-/-- non-vacuity of `nodir_excludes_dirs`, **D18** (the directory `a\nb` survives NODIR: the
-    regex has no DOTALL) and **D16** (the file `x\` is dropped: Windows regex on Linux) at once:
-    `glob('*', NODIR)` returns `a\nb` and `f`, not `d` (right) and not `x\` (wrong). -/
-theorem D18_D16_witness : globResults wN tN 3 [pStar] = ["a\nb".toList, "f".toList] := by decide +kernel
+/-- non-vacuity of `nodir_excludes_dirs`, and **D18** and **D16** repaired, at once:
+    `glob('*', NODIR)` used to return `a\nb` and `f` — the directory `a\nb` survived NODIR (the
+    regex had no DOTALL: D18) and the file `x\` was dropped (Windows regex on Linux: D16).  Now
+    it returns exactly the two files `f` and `x\`, and neither directory.  Fails again if
+    either defect returns. -/
+theorem D18_D16_fixed_witness :
+    globResults wN tN 3 [pStar] = ["f".toList, "x\\".toList] ∧
+    -- (without NODIR the pattern does return the two directories: the exclusion is what removes them)
+    globResults { wN with excl := [] } tN 3 [pStar] = ["d".toList, "a\nb".toList, "f".toList, "x\\".toList] := by
+  decide +kernel
 
-/-- the regex facts behind the two: no DOTALL; backslash counts as a separator -/
+/-- the regex facts behind the two: `(?s:` — both variants cross a newline; a backslash counts
+    as a separator for the Windows variant only (which `Glob` holds under FORCEWIN only) -/
 theorem nodir_regex_facts :
-    Frag.noWinDir.fullmatch "a\nb/".toList = false ∧ Frag.noWinDir.fullmatch "ab/".toList = true ∧
+    Frag.noNixDir.fullmatch "a\nb/".toList = true ∧ Frag.noWinDir.fullmatch "a\nb/".toList = true ∧
+    Frag.noNixDir.fullmatch "ab/".toList = true ∧ Frag.noNixDir.fullmatch "a\nb".toList = false ∧
     Frag.noWinDir.fullmatch "x\\".toList = true ∧ Frag.noNixDir.fullmatch "x\\".toList = false := by
   decide +kernel
 
@@ -152,12 +170,9 @@ def pAstar : List GPart :=
 example (x : List Char) (hx : x ∈ perPattern { wN with excl := [] } tOk 6 pAstar) :
     tOk.lexists x = true ∧ (endsWithSep x = true → tOk.isdir x = true) := by
   apply exists_partial { wN with excl := [] } tOk (wfTree_of_wfB tOk (by decide +kernel)) rfl 6 (by decide +kernel)
-    pAstar _ _ _ _ x hx
+    pAstar _ _ _ x hx
   · intro p hp; simp [pAstar] at hp; rcases hp with rfl | rfl <;> rfl
   · exact ⟨rfl, trivial⟩
-  · intro p hp d o _
-    simp [pAstar] at hp
-    rcases hp with rfl | rfl <;> rfl
   · refine ⟨by decide +kernel, by decide +kernel, ?_, ?_, ?_⟩
     · intro p rest h; simp [pAstar] at h; obtain ⟨rfl, _⟩ := h; decide +kernel
     · intro p q rest h _ _; simp [pAstar] at h; obtain ⟨rfl, _, _⟩ := h; decide +kernel
